@@ -96,24 +96,26 @@ Proof.
   apply andb_true_iff in H as [H _]. apply andb_true_iff in H as [H1 _]. auto.
 Qed.
 
-Lemma negotiate_auth_required_client sS cA sE cE sm cm sc cc :
-  n_err (negotiate sS cA sE cE sm cm sc cc) = None -> cA = Rq ->
-  n_auth (negotiate sS cA sE cE sm cm sc cc) = true.
+Lemma negotiate_auth_required_client sS cA sE cE sI cI sm cm sc cc :
+  ni_err (negotiate_i sS cA sE cE sI cI sm cm sc cc) = None -> cA = Rq ->
+  ni_auth (negotiate_i sS cA sE cE sI cI sm cm sc cc) = true.
 Proof.
-  intros H ->. unfold negotiate, decide in *.
-  destruct sS, sE, cE; simpl in *;
-    destruct (has_meth (neg_meth sm cm)); destruct (has_ciph (neg_ciph sc cc)); simpl in *;
-      try discriminate; reflexivity.
+  intros H ->. unfold negotiate_i, decide_i in *.
+  assert (S1 : forall b, should sS Rq b = true) by (intro b; unfold should; simpl; rewrite orb_true_r; reflexivity).
+  rewrite !S1 in *. simpl in *.
+  repeat (match type of H with context [if ?c then _ else _] => destruct c end; simpl in *; try discriminate).
+  reflexivity.
 Qed.
 
-Lemma negotiate_auth_required_server sA cS sE cE sm cm sc cc :
-  n_err (negotiate sA cS sE cE sm cm sc cc) = None -> sA = Rq ->
-  n_auth (negotiate sA cS sE cE sm cm sc cc) = true.
+Lemma negotiate_auth_required_server sA cS sE cE sI cI sm cm sc cc :
+  ni_err (negotiate_i sA cS sE cE sI cI sm cm sc cc) = None -> sA = Rq ->
+  ni_auth (negotiate_i sA cS sE cE sI cI sm cm sc cc) = true.
 Proof.
-  intros H ->. unfold negotiate, decide in *.
-  destruct cS, sE, cE; simpl in *;
-    destruct (has_meth (neg_meth sm cm)); destruct (has_ciph (neg_ciph sc cc)); simpl in *;
-      try discriminate; reflexivity.
+  intros H ->. unfold negotiate_i, decide_i in *.
+  assert (S1 : forall b, should Rq cS b = true) by (intro b; reflexivity).
+  rewrite !S1 in *. simpl in *.
+  repeat (match type of H with context [if ?c then _ else _] => destruct c end; simpl in *; try discriminate).
+  reflexivity.
 Qed.
 
 Definition finish_facts (c : cfg) (pk : keymat) (auth : bool) (m : meth) (ran : list (meth * bool)) (r : result) : Prop :=
@@ -153,8 +155,9 @@ Proof.
   destruct (rc_rejects (s_rc s)); [discriminate|].
   set (sm := prefer_list (s_list s) (s_single s)) in *.
   set (sc := prefer_list (s_clist s) (s_csingle s)) in *.
-  set (n := negotiate (to_lvl (s_auth s)) (c_auth c) (to_lvl (s_enc s)) (c_enc c) sm (c_meths c) sc (c_ciphs c)) in *.
-  destruct (n_err n) eqn:En; [discriminate|].
+  set (n := negotiate_i (to_lvl (s_auth s)) (c_auth c) (to_lvl (s_enc s)) (c_enc c) (s_integ s) (c_integ c)
+                        sm (c_meths c) sc (c_ciphs c)) in *.
+  destruct (ni_err n) eqn:En; [discriminate|].
   destruct (is_yes (s_auth s)) eqn:Ey.
   - destruct sm as [|m0 sm0] eqn:Esm; [discriminate|].
     destruct (cl_methods (c_meths c) (m0 :: sm0)) as [|c0 cr] eqn:Ecms; [discriminate|].
@@ -178,10 +181,10 @@ Lemma server_ok c s r : server_hs c s = Ok r -> good_result c (q_key s) r.
 Proof.
   unfold server_hs. intro H. cbv zeta in H.
   destruct (negb (q_cmd_ok s)); [discriminate|].
-  set (n := negotiate (c_auth c) (to_lvl (q_auth s)) (c_enc c) (to_lvl (q_enc s))
-                      (c_meths c) (q_meths s) (c_ciphs c) (q_ciphs s)) in *.
-  destruct (n_err n) eqn:En; [discriminate|].
-  destruct (n_auth n) eqn:Ea.
+  set (n := negotiate_i (c_auth c) (to_lvl (q_auth s)) (c_enc c) (to_lvl (q_enc s)) (c_integ c) (q_integ s)
+                        (c_meths c) (q_meths s) (c_ciphs c) (q_ciphs s)) in *.
+  destruct (ni_err n) eqn:En; [discriminate|].
+  destruct (ni_auth n) eqn:Ea.
   - destruct (server_loop (c_meths c) (q_masks s) []) as [m ran|ran] eqn:El; [|discriminate].
     apply server_loop_done in El as [Hin Hone]; [|apply all_failed_nil].
     destruct (server_finish_ok _ _ _ _ _ _ _ H) as (A & B & C & D & E & F & G).
@@ -195,7 +198,7 @@ Proof.
     + right. auto.
     + intro Hc. exfalso.
       pose proof (negotiate_auth_required_server (c_auth c) (to_lvl (q_auth s)) (c_enc c) (to_lvl (q_enc s))
-                    (c_meths c) (q_meths s) (c_ciphs c) (q_ciphs s) En Hc) as K.
+                    (c_integ c) (q_integ s) (c_meths c) (q_meths s) (c_ciphs c) (q_ciphs s) En Hc) as K.
       fold n in K. congruence.
 Qed.
 
